@@ -30,6 +30,8 @@ def make_scenario(seed: int, idx: int, family: str) -> dict:
     topo = driver.topology(rng)
     if family == 'base':
         topo = {'kind': 'attached', 'workers': int(rng.integers(2, 4))}
+        if idx % 3 == 2:
+            topo = {'kind': 'detached', 'managers': [2], 'nested': False}
     raises = family == 'rand' and rng.random() < 0.12
     nclients = 1
     if topo['kind'] == 'detached' and rng.random() < 0.4:
@@ -39,7 +41,8 @@ def make_scenario(seed: int, idx: int, family: str) -> dict:
     for c in range(nclients):
         for _ in range(50):
             g = scen.TreeGen(rng, 'c%dt' % c, max_tasks=int(rng.integers(4, 30 if family != 'base' else 12)),
-                             cancel=False, raises=raises, nexts=True, unawaited=True, wide=bool(rng.random() < 0.3))
+                             cancel=False, raises=raises, nexts=True, unawaited=True, wide=bool(rng.random() < 0.3),
+                             logs=(family == 'rand' and idx % 3 == 0))
             tree = g.tree(int(rng.integers(1, 4)))
             if family != 'base' or driver.has_multi_await(tree):
                 break
